@@ -52,6 +52,50 @@ fn diag_present(src: &str, want_index: bool) -> Result<bool, String> {
     Ok(n > 0)
 }
 
+/// C25, rendering clause: the `file:line:col` header of a rendered diagnostic.  Every text of at
+/// most N symbols over {a, newline, tab, space} and every offset in it: a synthetic syntax error at that
+/// offset is rendered by the real diagnostics crate and the header must name line = newlines
+/// before the offset + 1 and column = bytes since the start of that line + 1.
+fn render_mode(thorough: bool) {
+    use text_size::{TextRange, TextSize};
+    let n = if thorough { 7 } else { 5 };
+    let alphabet = ["a", "\n", "\t", " "];
+    let interner = Interner::default();
+    let mut texts: Vec<String> = vec![String::new()];
+    let mut frontier = vec![String::new()];
+    for _ in 0..n {
+        let mut next = vec![];
+        for t in &frontier { for a in alphabet { let mut x = t.clone(); x.push_str(a); next.push(x); } }
+        texts.extend(next.iter().cloned());
+        frontier = next;
+    }
+    let mut runs = 0u64;
+    for text in &texts {
+        let index = line_index::LineIndex::new(text);
+        for off in 0..text.len() {
+            // a range that covers a line break is not something the front end reports (the snippet
+            // printer slices the line without its terminator)
+            if text.as_bytes()[off] == b'\n' { continue; }
+            runs += 1;
+            let err = parser::SyntaxError {
+                expected_syntax: parser::ExpectedSyntax::Named("thing"),
+                kind: parser::SyntaxErrorKind::UnexpectedToken { found: syntax::TokenKind::Ident, range: TextRange::new(TextSize::from(off as u32), TextSize::from(off as u32 + 1)) },
+            };
+            let lines = diagnostics::Diagnostic::from_syntax(err).display("f.capy", text, Path::new(""), &interner, &index, false);
+            let header = lines.iter().find(|l| l.contains("--> at ")).cloned().unwrap_or_default();
+            let line = text[..off].matches('\n').count() + 1;
+            let col = off - text[..off].rfind('\n').map(|p| p + 1).unwrap_or(0) + 1;
+            let want = format!(":{}:{}", line, col);
+            if !header.trim_end().ends_with(&want) {
+                println!("MISMATCH text {:?} offset {}: the diagnostic header is {:?}, the position is line {} column {}", text, off, header.trim(), line, col);
+                println!("SUMMARY mode=render max_len={} texts={} runs={} mismatches=1", n, texts.len(), runs);
+                std::process::exit(1);
+            }
+        }
+    }
+    println!("SUMMARY mode=render max_len={} texts={} runs={} mismatches=0", n, texts.len(), runs);
+}
+
 /// does the checker accept the program (no diagnostic of any kind)?
 fn accepted(src: &str) -> Result<bool, String> {
     match diag_present(src, false) {
@@ -163,6 +207,10 @@ fn index_mode(thorough: bool) {
 }
 
 fn main() {
+    if std::env::args().nth(1).map(|s| s == "render").unwrap_or(false) {
+        render_mode(std::env::args().nth(2).map(|s| s == "thorough").unwrap_or(false));
+        return;
+    }
     std::panic::set_hook(Box::new(|_| {}));
     if std::env::args().nth(1).map(|s| s == "switch").unwrap_or(false) {
         switch_mode(std::env::args().nth(2).map(|s| s == "thorough").unwrap_or(false));
@@ -242,6 +290,30 @@ fn main() {
                             std::process::exit(1);
                         }
                     }
+                }
+            }
+        }
+    }
+    // exponent spellings at the boundaries: m e1 with m = floor(MAX / 10) fits, (m + 1) e1 does not
+    // (a literal beyond the u64 domain is rejected when it is lowered; that counts as rejected)
+    for (tname, max) in types {
+        for (m, fits) in [(max / 10, true), (max / 10 + 1, false)] {
+            if !fits && max >= u64::MAX as u128 && tname != "u64" && tname != "usize" { continue; }   // i128 / u128 hold every u64 literal
+            for spelling in [format!("{}e1", m), format!("{}E1", m), format!("{}_e1", m)] {
+                let src = format!("main :: () {{ x : {} = {}; }}", tname, spelling);
+                runs += 1;
+                let src2 = src.clone();
+                let got = match std::thread::spawn(move || too_big(&src2)).join() {
+                    Ok(Ok(g)) => g,
+                    Ok(Err(e)) if e.contains("lowering diagnostics") => true,
+                    Ok(Err(e)) => { println!("SKIPPED exponent spelling {}: {}", spelling, e); continue; }
+                    Err(_) => { println!("MISMATCH the front end panicked on: {}", src); std::process::exit(1); }
+                };
+                if got == fits {
+                    println!("MISMATCH literal {} (= {}0) at type {} is {} but {} (program: {})", spelling, m, tname,
+                             if got { "rejected" } else { "accepted" }, if fits { "fits" } else { "does not fit" }, src);
+                    println!("SUMMARY contexts={} types={} values={} runs={} mismatches=1", contexts.len(), types.len(), values.len(), runs);
+                    std::process::exit(1);
                 }
             }
         }
